@@ -31,7 +31,7 @@ import (
 )
 
 func keep(name string) bool {
-	return name == "log.append" || strings.HasPrefix(name, "clean.") || strings.HasPrefix(name, "session.") ||
+	return name == "log.append" || strings.HasPrefix(name, "clean.") || strings.HasPrefix(name, "session.") || strings.HasPrefix(name, "rooms.") ||
 		name == "reset" || name == "quiesce" || name == "note" || name == "e2e"
 }
 
@@ -167,7 +167,8 @@ func newE2E(W time.Duration, useMw bool, mw func()) (*e2eWorld, error) {
 	}
 	w.srv = srv
 	cur := srv.IO.Of("/").Adapter()
-	vtrace.SetObjectFilter(func(o any) bool { return o == any(cur) })
+	inner := adapter.VerifInnerAdapter(cur)
+	vtrace.SetObjectFilter(func(o any) bool { return o == any(cur) || o == inner })
 	return w, nil
 }
 
@@ -197,6 +198,9 @@ func emit(w *e2eWorld, ss sio.ServerSocket, kind string, n int, binary bool) boo
 		return true
 	case "other":
 		io.To("r2").Emit("ev", n, arg)
+		return false
+	case "other3-except-nothing":
+		io.To("r3").Emit("ev", n, arg)
 		return false
 	case "except":
 		io.Except("r1").Emit("ev", n, arg)
@@ -297,6 +301,12 @@ func (e *env) e2eRaw(p e2eParams) {
 	}
 	ss := w.waitSock(1)
 	rig.WaitUntil(2*time.Second, func() bool { return ss != nil && ss.Rooms().Contains("r1") })
+	if ss != nil {
+		// rooms joined and left again before anything is broadcast: they must not come back with the session
+		ss.Join("r2", "r3")
+		ss.Leave("r2")
+		w.srv.IO.In("r3").SocketsLeave("r3")
+	}
 	var addressed []string
 	lastLog := func() string {
 		ids := adapter.VerifLogIDs(w.srv.IO.Of("/").Adapter())
@@ -396,14 +406,14 @@ func (e *env) e2eRaw(p e2eParams) {
 	received := append(append([]string{}, got1...), got2...)
 	roomsOk := true
 	if recovered {
-		roomsOk = ss2.Rooms().Contains("r1") && string(ss2.ID()) == sid
+		roomsOk = ss2.Rooms().Contains("r1") && !ss2.Rooms().Contains("r2") && !ss2.Rooms().Contains("r3") && string(ss2.ID()) == sid
 	}
 	if !recovered {
 		addressed = []string{}
 	}
 	vtrace.Emit("e2e", "class", cfgName, "client", "raw", "recovered", recovered, "expectRecovered", expect, "clientRecovered", recovered,
 		"sameSid", sid2 == sid && pid2 == pid, "roomsOk", roomsOk, "addressed", addressed, "received", received,
-		"intact", bin1 && bin2, "binary", p.Binary)
+		"intact", bin1 && bin2, "binary", p.Binary, "strict", true)
 	e.end()
 	e.res.Case(fmt.Sprint(p), true)
 	if e.scen%15 == 2 {
@@ -485,7 +495,7 @@ func (e *env) goClient() {
 		rec := ss2 != nil && ss2.Recovered()
 		vtrace.Emit("e2e", "class", "e2e-goclient", "client", "go", "recovered", rec, "expectRecovered", round == 0, "clientRecovered", c.Recovered(),
 			"sameSid", c.ID() == firstID, "roomsOk", !rec || ss2.Rooms().Contains("r1"), "addressed", []string{}, "received", []string{},
-			"intact", true, "binary", false, "round", round)
+			"intact", true, "binary", false, "round", round, "strict", false)
 	}
 	e.end()
 	e.res.Case("goclient", true)
@@ -507,7 +517,7 @@ func TestC08(t *testing.T) {
 	for i := 0; i < vres.Pick(30, 500); i++ {
 		e.adapterHistory(rng, 22)
 	}
-	kindsU := []string{"nsp", "room", "other", "except", "room-except-other", "direct"}
+	kindsU := []string{"nsp", "room", "other", "except", "room-except-other", "direct", "other3-except-nothing"}
 	var ps []e2eParams
 	hist := []string{"nsp", "room", "other", "direct", "room-except-other"}
 	for k := 1; k <= len(hist); k++ {
